@@ -203,6 +203,14 @@ def run(ck):
                     aggs.append((bi, rv))
         ck.ob("COV", f.path, "suspension-sites", len(aggs) == 2, "%d places construct a suspended RunConfig" % len(aggs), f.loc())
         names = f.names()
+        entry_bound = set()
+        cfg_arg = next((i for i in range(1, f.argc + 1) if f.locals[i].endswith("machine::RunConfig")), None)
+        for b2 in f.reachable():
+            for st in f.stmts(b2):
+                if st.get("rv", {}).get("k") == "use":
+                    q = op_place(st["rv"]["a"])
+                    if q and q[0] == cfg_arg and q[1] and "lhs" in st and not st["lhs"][1]:
+                        entry_bound.add(str(q[1][-1]).split(":")[-1])
         for n, (bi, rv) in enumerate(aggs):
             for i, fld in enumerate(rv["fields"]):
                 op = rv["ops"][i]
@@ -212,7 +220,18 @@ def run(ck):
                     continue
                 r = rules.root_local(f, op)
                 nm = names.get(r[0]) if r else None
-                ck.ob("COV", f.path, "suspend#%d:%s" % (n, fld), nm == fld, "field `%s` is stored from the current binding `%s`" % (fld, nm), f.loc(bi))
+                # name-independent form: the local was bound from the same field when the configuration was taken apart at
+                # entry (and possibly reassigned since); a field that is not bound at entry (`return_value_loc: _`) must
+                # be a plain copy of a user-named local, not a value computed on the spot
+                bound_from = set()
+                if r and not r[1]:
+                    for (b2, si, it) in f.defs().get(r[0], []):
+                        if si != "t" and it["rv"].get("k") == "use":
+                            q = op_place(it["rv"]["a"])
+                            if q and q[0] == cfg_arg and q[1]:
+                                bound_from.add(str(q[1][-1]).split(":")[-1])
+                ok = nm == fld or fld in bound_from or (fld not in entry_bound and nm is not None and r is not None and not r[1])
+                ck.ob("COV", f.path, "suspend#%d:%s" % (n, fld), ok, "field `%s` is stored from the current binding `%s`" % (fld, nm), f.loc(bi))
         adt = c.adts.get(W + "::machine::RunConfig")
         if adt:
             ck.ob("COV", W + "::machine::RunConfig", "fields", len(adt["variants"][0]["fields"]) == (len(aggs[0][1]["fields"]) if aggs else -1), "every RunConfig field is set at suspension", "")
